@@ -340,6 +340,23 @@ def observe(C, model, label, d, viols, tables=True):
         if gexc != wexc or got != want:
             viols.append(('matching', '%s [%s]: get_matching_cycles(%r) -> %r / %r, model %r / %r' % (d, label, conds, got, gexc, want, wexc)))
             return
+    # ... and condition by condition (ret_separate=True): one column per condition, each the condition on its own
+    for conds in CONDS:
+        if len(conds) < 2:
+            continue
+        try:
+            want = [model.matching([c]) for c in conds]
+        except KeyError:
+            continue
+        try:
+            sep = np.asarray(C.get_matching_cycles(list(conds), ret_separate=True))
+            got = [[bool(v) for v in sep[:, j]] for j in range(sep.shape[1])] if sep.ndim == 2 else None
+        except Exception as e:
+            viols.append(('matching:separate:raise', '%s [%s]: get_matching_cycles(%r, ret_separate=True) raised %r' % (d, label, conds, e)))
+            return
+        if got != want:
+            viols.append(('matching:separate', '%s [%s]: get_matching_cycles(%r, ret_separate=True) -> %r, each condition alone gives %r' % (d, label, conds, got, want)))
+            return
     if not tables:
         return
     # the container's iterators: samples of every cycle / every selected cycle / every chain, in order
@@ -391,12 +408,17 @@ def observe(C, model, label, d, viols, tables=True):
 def transition(root, hist):
     from emd.cycles import Cycles
     name, seed = root
+    ctor = {}
+    if name.endswith('+mode-augmented'):
+        # the constructor's `mode` keyword given: stored metrics are still the function of each cycle's own samples
+        name = name[:-len('+mode-augmented')]
+        ctor = {'mode': 'augmented'}
     phase = phases(seed)[name]
     model = Model(phase)
-    d = 'container %r history %s' % (name, [fmt(o) for o in hist])
+    d = 'container %r%s history %s' % (name, ' built with mode=augmented' if ctor else '', [fmt(o) for o in hist])
     viols = []
     try:
-        real = {'cache-on': Cycles(phase.copy(), use_cache=True), 'cache-off': Cycles(phase.copy(), use_cache=False)}
+        real = {'cache-on': Cycles(phase.copy(), use_cache=True, **ctor), 'cache-off': Cycles(phase.copy(), use_cache=False, **ctor)}
     except Exception as e:
         return history.Step(None, [('construct:raise:%s' % type(e).__name__, '%s: constructor raised %r' % (d, e))])
     aug_metrics = set()
@@ -445,7 +467,7 @@ def transition(root, hist):
 
 
 def ops_for(root, hist):
-    model = Model(phases(root[1])[root[0]])
+    model = Model(phases(root[1])[root[0].split('+')[0]])
     for op in hist:
         model.apply(op)
     return [op for op in OPS if model.enabled(op)]
@@ -471,7 +493,7 @@ def run(ctx):
     b = bounds(ctx.tier)
     roots = [(name, ctx.seed) for name in phases(ctx.seed) if name != 'long-cycles']
     rep = history.bfs(roots, OPS, transition, b['depth_full'], dedup=True, timeout_s=TIMEOUT, serial=ctx.serial, ops_for=ops_for)
-    rep0 = history.bfs([('long-cycles', ctx.seed)], OPS, transition, 2, dedup=True, timeout_s=TIMEOUT, serial=ctx.serial, ops_for=ops_for)
+    rep0 = history.bfs([('long-cycles', ctx.seed), ('noisy+mode-augmented', ctx.seed)], OPS, transition, 2, dedup=True, timeout_s=TIMEOUT, serial=ctx.serial, ops_for=ops_for)
     rep.merge(rep0)
     rep.extra['distinct_states'] = rep.extra.get('distinct_states', 0)
 
